@@ -101,7 +101,10 @@ def run(chk):
                   "fields must be grouped with a STABLE sort on the group index (declaration order inside a group is the emission order)", found=[m["method"] for m in sorts])
         src = render(fs.body).replace(" ", "")
         ok = "ifgroup_paths.contains_key(&path){letgr_idx=*group_paths.get(&path).unwrap();" in src and "group_paths.insert(path.clone(),group_paths.len());" in src and 'group_paths.insert("".into(),0);' in src
-        chk.shape("R5", "first-seen-index", ok, 'group_paths.insert("".into(),0);' not in src, EXPAND, fs.line, "group index must be the first-seen order of the path (top level = 0)", found=src[:80])
+        # recognised-bad: the top-level group "" is not pre-seeded with index 0 anywhere in the function or a helper it calls
+        all_src = src + "".join(render(f_.body).replace(" ", "") for f_ in repo.fns(EXPAND) if f_.name != fs.name and re.search(r"\b" + re.escape(f_.name) + r"\(", src))
+        seeded = re.search(r"insert\((\"\"\.into\(\)|String::new\(\)|\"\"\.to_string\(\)|\"\"\.to_owned\(\)|String::from\(\"\"\)),0\)", all_src) is not None
+        chk.shape("R5", "first-seen-index", ok, not seeded, EXPAND, fs.line, "group index must be the first-seen order of the path (top level = 0)", found=src[:80])
         fi = repo.fn(EXPAND, "struct_init_block_inner")
         brk = [n for n in walk(fi.body) if n["k"] == "If" and any(st["k"] == "ExprStmt" and st["expr"]["k"] == "Break" for st in n["then"]["stmts"])]
         cond = render(brk[0]["cond"]).replace(" ", "") if len(brk) == 1 else ""
@@ -110,8 +113,9 @@ def run(chk):
         chk.shape("R5", "prefix-test", ok, bad or (len(brk) == 1 and "starts_with" not in cond), EXPAND, fi.line,
                   "descent must stop unless the member's path equals the current prefix or extends it by a `.`-separated component (a bare starts_with would confuse `ab` with `a`)", found=cond)
         pref = [n for n in walk(fi.body) if n["k"] == "Let" and n["pat"].get("name") == "p"]
-        ok = len(pref) == 1 and render(pref[0]["init"]).replace(" ", "") == "field_ctx.0.get_child_path_str(Some(field_ctx.2))"
-        chk.shape("R5", "prefix-of-current-depth", ok, bool(pref) and "get_child_path_str(Some(field_ctx.2))" not in render(pref[0]["init"]).replace(" ", ""), EXPAND, fi.line,
+        ptxt = render(pref[0]["init"]).replace(" ", "") if pref else ""
+        ok = len(pref) == 1 and re.fullmatch(r"field_ctx\.(0|child_path)\.get_child_path_str\(Some\(field_ctx\.(2|depth)\)\)", ptxt) is not None
+        chk.shape("R5", "prefix-of-current-depth", ok, bool(pref) and not ok and re.search(r"get_child_path_str\((None|Some\(0\))\)", ptxt) is not None, EXPAND, fi.line,
                   "the prefix compared against must be the current child path at the current depth", found=render(pref[0]["init"]) if pref else None)
     chk.guard("R5", r5)
 
